@@ -208,7 +208,9 @@ impl<'a, 'b> Gen<'a, 'b> {
             }
             4 => {
                 self.tag("expr-call");
-                if self.t.flip() {
+                if self.t.chance(1, 3) {
+                    self.method_chain(depth - 1);
+                } else if self.t.flip() {
                     let f = *self.t.pick(SYSFUNCS);
                     self.push(f, Class::SysIdent);
                     if f != "$time" && f != "$random" || self.t.flip() {
@@ -360,6 +362,43 @@ impl<'a, 'b> Gen<'a, 'b> {
                 } else {
                     self.kw("null");
                 }
+            }
+        }
+    }
+
+    /// obj.m1(args).m2.m3() ... : chained method calls (method_call ::= method_call_root . method_call_body)
+    pub fn method_chain(&mut self, depth: usize) {
+        self.tag("expr-method-chain");
+        match self.t.below(3) {
+            0 => self.var_ref_ident_only(),
+            1 => {
+                self.id("obj_h");
+            }
+            _ => {
+                if self.in_class {
+                    let s = *self.t.pick(&["this", "super"]);
+                    self.kw(s);
+                } else {
+                    self.id("cls_q");
+                }
+            }
+        }
+        let n = 1 + self.t.weighted(&[2, 4, 3, 2]);
+        for i in 0..n {
+            self.sym(".");
+            let m = *self.t.pick(&["first", "second", "m3", "size", "next_", "end_m", "\\meth.od", "get"]);
+            self.id(m);
+            // the last segment always has parentheses so the whole thing is a call
+            if i + 1 == n || self.t.chance(2, 3) {
+                self.sym("(");
+                if depth > 0 && self.t.chance(1, 3) {
+                    self.expr(depth - 1);
+                    if self.t.chance(1, 3) {
+                        self.sym(",");
+                        self.expr(depth - 1);
+                    }
+                }
+                self.sym(")");
             }
         }
     }
